@@ -27,12 +27,13 @@ MAX_TIMEOUTS = {"quick": 1, "thorough": 20}
 REQUIRED = {"placements_checked": 1500, "placements_wrapped": 150, "start_on_grid_checked": 150,
             "placements_with_force": 100, "rejected_trials": 50, "noncubic_runs": 10, "user_grid_runs": 5,
             "density_runs": 5, "ring_closures": 500, "systems_with_tree_consolidation": 15,
-            "systems_with_two_residues_under_one_name": 40}
+            "systems_with_two_residues_under_one_name": 40, "boxes_that_are_multiples_of_the_grid_spacing": 30}
 
 
 def plan(tier, seed):
     n = 400 if tier == "quick" else 4000
-    return [["sys", i] for i in range(n)] + [["edge", i] for i in range(n // 3)] + [["ring", i] for i in range(n // 2)]
+    return [["sys", i] for i in range(n)] + [["edge", i] for i in range(n // 3)] + [["ring", i] for i in range(n // 2)] + \
+        [["gridface", i] for i in range(n // 8)]
 
 
 def setup():
@@ -49,6 +50,11 @@ def run_case(cid, rng, workdir):
                             kinds=["single", "single", "chain"], n_restypes=2)
         sysd["molecules"] = [(sysd["moltypes"][0]["name"], rng.randint(8, 14))]
         bump(res, "ring_closures", sysd["molecules"][0][1])
+    elif cid[0] == "gridface":
+        # box edges that are whole multiples of the grid spacing (4.2 nm with 0.2 or 0.3 nm): rounding puts the last plane
+        # of a naive grid onto the upper face, which is outside the periodic cell; many short molecules = many starts
+        sysd = T.gen_system(rng, max_types=1, min_res=1, max_res=2, max_count=1, kinds=["single", "chain"])
+        sysd["molecules"] = [(sysd["moltypes"][0]["name"], rng.randint(10, 16))]
     else:
         sysd = T.gen_system(rng, max_types=2 if edge else 3, max_res=6 if edge else rng.choice([8, 8, 16]), max_count=2 if edge else 3)
         if any(len(mt["res"]) > 10 for mt in T.expand(sysd)):
@@ -94,6 +100,13 @@ def run_case(cid, rng, workdir):
     if any(len(mt["res"]) > 10 for mt in T.expand(sysd)):
         opts["max_force"] = max(opts["max_force"], 5e3)
     opts["grid_spacing"] = rng.choice([0.2, 0.3, 0.5])
+    if cid[0] == "gridface":
+        gs = rng.choice([0.2, 0.3])
+        opts.pop("density", None)
+        opts.pop("grid", None)
+        opts["grid_spacing"] = gs
+        opts["box"] = np.array([rng.choice([4.2, 3.6, 4.8, 5.4, 6.6]) for _ in range(3)])
+        bump(res, "boxes_that_are_multiples_of_the_grid_spacing")
     opts["nrewind"] = rng.choice([1, 3, 5])
     run, ctx = CC.run_gen_coords(toppath=Path(workdir) / "s.top", outpath=Path(workdir) / "o.gro", name="x", **opts)
     desc = {"system": T.describe(sysd), "options": {k: (v.tolist() if hasattr(v, "tolist") else v) for k, v in opts.items()
